@@ -270,7 +270,10 @@ def panels(phase):
                   (o(0, 0, 1), o(0, 1, 1))]
     P["tempo"] = [(ev(60, 120), const(.25), ev(64, 120)), (ev(60, 120), const(0.0), ev(120, 60)),
                   (ev(0, 120), const(.5), ev(0, 125)), (ev(72, 144), const(1.0), ev(64, 150)),
-                  (ev(60, 180), const(.5), ev(66, 190))]
+                  (ev(60, 180), const(.5), ev(66, 190)),
+                  # tempi listed fast-first (order is free) with an asymmetric weight: exactly one reference tempo hit
+                  (ev(120, 60), const(.25), ev(120, 200)), (ev(140, 70), const(.75), ev(35, 70)),
+                  (ev(60, 120), const(.25), ev(200, 60))]
     P["key"] = [(const("C major"), const("c major")), (const("C major"), const("G major")),
                 (const("A minor"), const("C major")), (const("X"), const("x")), (const("Db other"), const("C# minor"))]
     P["alignment"] = [(o(.5), o(.5)), (o(.5, 1, 2), o(.5, 1.25, 2.5)), (o(0, 1, 2, 3), o(.25, 1.3125, 2, 3.5)),
